@@ -7,7 +7,7 @@ from props._m1 import quiet_repo
 PROP = "C09"
 LEVEL = "other"
 SELFTEST_PARTS = ("num", "tok")
-WALL_BUDGET = {"quick": 1200, "thorough": 9000}
+WALL_BUDGET = {"quick": 3600, "thorough": 14400}
 OPS = ["create", "update", "delete", "read", "read_all_tag", "read_all"]
 TAGS = ["t0", "t1"]
 IDMAX = 5
